@@ -3,6 +3,7 @@ package main
 import (
 	"fmt"
 	"go/types"
+	"os"
 	"sort"
 	"strings"
 
@@ -45,6 +46,10 @@ func (p *Program) typingComponents(m *tcMethod, ua *unfoldAnalysis) map[string]m
 							return K.Obj().Name(), comp
 						}
 					}
+				}
+				// a field of an option found in X.Branches: the component is the option list
+				if k, c := compOf(fa.X, depth+1); k != "" {
+					return k, c
 				}
 			}
 		case *ssa.Call:
@@ -175,6 +180,11 @@ func runPairing(p *Program, r *RuleResult) {
 		comps[m.T.Obj().Name()] = p.typingComponents(m, ua)
 	}
 	nChecked := 0
+	if os.Getenv("GRITS_DEBUG_PAIRING") != "" {
+		for f, m := range comps {
+			fmt.Fprintf(os.Stderr, "comps %s: %v\n", f, m)
+		}
+	}
 	for _, family := range []string{"Transition", "TransitionNP"} {
 		writers, readers := protocolTables(p, family)
 		wslots := writerSlots(p, family, writers)
